@@ -1,6 +1,8 @@
 /* C02: PRWLock under the controlled scheduler (posix and general models).
  * harness: rw <script> <script> [<script> [<script>]]     one script per thread, characters:
  *     R reader_lock..unlock   W writer_lock..unlock   r reader_trylock (cs if TRUE)   w writer_trylock (cs if TRUE)
+ * harness: many <N>   one thread takes the read lock N times with reader_trylock (a refusal is accepted: the count taken is what was granted), the write
+ *                      lock must then be refused; after as many unlocks the lock must be free again (reader counts kept in narrow bit fields)
  * harness: nest        a reader that, while it holds the read lock, starts and joins a helper taking a read lock, next to a writer:
  *                      every lock is released again, so the rounds must run to completion (a lock that makes new readers wait
  *                      behind a waiting writer deadlocks here)
@@ -112,6 +114,24 @@ static void h_nest(int argc, char **argv)
     mc_outcome("data=%ld", data);
 }
 
+static void h_many(int argc, char **argv)
+{
+    long n = argc > 0 ? atol(argv[0]) : 40000, i, held = 0, refused_at = -1;
+    lk = p_rwlock_new();
+    if (!lk) mc_fail("C02", "new-failed", "p_rwlock_new returned NULL");
+    for (i = 0; i < n; i++) { if (p_rwlock_reader_trylock(lk)) held++; else if (refused_at < 0) refused_at = i + 1; }
+    if (held == 0) mc_fail("C02", "free-lock-not-grantable/reader", "no read lock could be taken on a fresh lock");
+    if (p_rwlock_writer_trylock(lk)) mc_fail("C02", "exclusion/writer_trylock-many-readers", "writer_trylock succeeded while %ld read locks are held", held);
+    for (i = 0; i < held; i++) if (!p_rwlock_reader_unlock(lk)) mc_fail("C02", "reader_unlock-false", "p_rwlock_reader_unlock number %ld of %ld returned FALSE", i + 1, held);
+    if (!p_rwlock_writer_trylock(lk)) mc_fail("C02", "free-lock-not-grantable/after-many-readers", "after %ld read locks (first refusal at call %ld) and as many unlocks the lock is free, but writer_trylock is refused: the lock is unusable from now on", held, refused_at);
+    p_rwlock_writer_unlock(lk);
+    if (!p_rwlock_reader_trylock(lk)) mc_fail("C02", "free-lock-not-grantable/after-many-readers", "after %ld read locks and as many unlocks reader_trylock is refused on the free lock", held);
+    p_rwlock_reader_unlock(lk);
+    p_rwlock_free(lk);
+    mc_nontrivial(0);
+    mc_outcome("held=%ld of %ld", held, n);
+}
+
 /* relock (native pthread model only): a thread that holds the lock in one mode asks for the other mode with the blocking call.
  * POSIX lets the native call fail with EDEADLK; whatever happens, the call must not report success (the lock would be held
  * by a writer and a reader at once). */
@@ -135,5 +155,6 @@ static void h_relock(int argc, char **argv)
 }
 
 static const McHarness HS[] = { {"rw", h_rw, "<script> per thread over R W r w"}, {"relock", h_relock, "same-thread re-lock in the other mode (posix model)"},
+    {"many", h_many, "<N>: N read locks by one thread, then the write lock must be refused, then everything released"},
     {"nest", h_nest, "reader that starts and joins another reader while holding the lock, next to a writer"} };
 int main(int argc, char **argv) { return mc_main(argc, argv, HS, (int)(sizeof HS / sizeof HS[0])); }
